@@ -20,6 +20,7 @@ ENTRIES = [(LIE, q) for q in (
 
 def run(ctx):
     ctx.do(S.rule_sh8)
+    ctx.do(MI.rule_fwd1, HOM)
     ctx.do(D.rule_t4, [LIE, HOM])
     ctx.do(D.rule_t3, [LIE])
     ctx.do(NP.rule_mk2, [LIE])
